@@ -34,6 +34,40 @@ void h_period(void) {
     V_CANARY("period block returns");
 }
 #endif
+#if defined(U03_EOS)
+#include SCRATCH_EbPictureDecisionProcess_c
+/* C03 — end of sequence reaches the mini-GOP logic: (a) the picture-decision kernel latches the EOS flag of the
+ * incoming picture into the pre-assignment buffer state and counts the picture (same statement range as U19.1);
+ * (b) the release decision: a buffer that holds the EOS picture is released (flushed) whatever its fill level —
+ * otherwise the last pictures of a stream whose length is not a multiple of the mini-GOP would never be coded. */
+void h_eos_latch(void) {
+    SequenceControlSet *scs = malloc(sizeof(*scs)); PictureParentControlSet *pcs = malloc(sizeof(*pcs)); EncodeContext *ec = malloc(sizeof(*ec));
+    __CPROVER_assume(scs && pcs && ec);
+    __CPROVER_assume(pcs->idr_flag <= 1 && pcs->cra_flag <= 1 && pcs->end_of_sequence_flag <= 1 && ec->pre_assignment_buffer_eos_flag <= 1);
+    __CPROVER_assume(ec->pre_assignment_buffer_intra_count < 1000 && ec->pre_assignment_buffer_idr_count < 1000 && ec->pre_assignment_buffer_count < 1000);
+    uint32_t eos0 = ec->pre_assignment_buffer_eos_flag, n0 = ec->pre_assignment_buffer_count;
+    verif_c19_period(scs, pcs, ec);
+    V_ASSERT(ec->pre_assignment_buffer_eos_flag == (uint32_t)(pcs->end_of_sequence_flag ? EB_TRUE : eos0), "the EOS flag of the incoming picture is latched (and an earlier latch is kept)");
+    V_ASSERT(ec->pre_assignment_buffer_count == n0 + 1, "the picture is counted into the pre-assignment buffer exactly once");
+    V_CANARY("latch block returns");
+}
+void h_eos_flush(void) {
+    SequenceControlSet *scs = malloc(sizeof(*scs)); PictureParentControlSet *pcs = malloc(sizeof(*pcs)); EncodeContext *ec = malloc(sizeof(*ec));
+    PictureDecisionContext *ctx = malloc(sizeof(*ctx));
+    __CPROVER_assume(scs && pcs && ec && ctx);
+    __CPROVER_assume(scs->static_config.hierarchical_levels <= 5);
+    __CPROVER_assume(ec->pre_assignment_buffer_count >= 1 && ec->pre_assignment_buffer_count <= 64);
+    ctx->total_number_of_mini_gops = 0; ctx->mini_gop_length[0] = 0;
+    verif_c03_release(scs, pcs, ec, ctx);
+    int must = ec->pre_assignment_buffer_eos_flag == EB_TRUE || ec->pre_assignment_buffer_intra_count > 0 ||
+        ec->pre_assignment_buffer_count == (uint32_t)(1 << scs->static_config.hierarchical_levels) ||
+        pcs->pred_structure == EB_PRED_LOW_DELAY_P || pcs->pred_structure == EB_PRED_LOW_DELAY_B;
+    V_ASSERT(!(ec->pre_assignment_buffer_eos_flag == EB_TRUE) || (ctx->total_number_of_mini_gops == 1 && ctx->mini_gop_length[0] == ec->pre_assignment_buffer_count && ctx->mini_gop_end_index[0] == ec->pre_assignment_buffer_count - 1),
+             "a pre-assignment buffer holding the EOS picture is released in full, whatever its fill level");
+    V_ASSERT(must == (ctx->total_number_of_mini_gops == 1), "release exactly when: EOS, an intra picture, a full mini-GOP, or low delay");
+    V_CANARY("release block returns");
+}
+#endif
 #if defined(U19_FLAGS)
 #include SCRATCH_EbResourceCoordinationProcess_c
 /* the per-picture flag initialisation when a (recycled) picture control set is taken from the pool */
